@@ -64,6 +64,9 @@ pub struct Case {
     pub seed: u64,
     pub path_trace: bool,
     pub steps: usize,
+    /// the last port is configured masterOnly; a master better than everything else may show up there
+    #[serde(default)]
+    pub master_only_last: bool,
 }
 
 fn rand_parent_body(rng: &mut StdRng, gm: [u8; 8], p1: u8) -> (AnnounceBody, [u8; 2]) {
@@ -101,6 +104,9 @@ pub fn run_case(rep: &mut Report, case: &Case, verbose: bool) {
     b.tp = own_tp;
     b.path_trace = case.path_trace;
     b.seed = case.seed;
+    if case.master_only_last {
+        b.master_only = (0..case.n_ports).map(|p| p + 1 == case.n_ports).collect();
+    }
     let Ok(built) = b.build() else { return };
     let mut node = built.node;
     let own_id = clock_id(0x50).0;
@@ -205,6 +211,7 @@ pub fn run_case(rep: &mut Report, case: &Case, verbose: bool) {
     }
     let mut p_remote = Remote::new(0x10, 1);
     let mut q_remote = Remote::new(0x08, 2);
+    let mut z_remote = Remote::new(0x04, 1);
     let deliver = |node: &mut Node, r: &mut Remote, body: AnnounceBody, flags: [u8; 2]| -> Option<Msg> {
         r.body = body;
         r.flags = flags;
@@ -214,7 +221,7 @@ pub fn run_case(rep: &mut Report, case: &Case, verbose: bool) {
     };
     let mut parent: Option<u8> = None; // 0 = P, 1 = Q
     for step in 0..case.steps {
-        let action = rng.gen_range(0..10);
+        let action = rng.gen_range(0..if case.master_only_last { 12 } else { 10 });
         match action {
             0..=4 => {
                 // the current parent (or P, if none) announces with new contents
@@ -320,6 +327,43 @@ pub fn run_case(rep: &mut Report, case: &Case, verbose: bool) {
                     return;
                 }
             }
+            10 | 11 => {
+                // a master better than the parent is heard on the masterOnly port: Announces received
+                // there take no part in the election, so the view (and the next parent update) is
+                // unaffected
+                if parent.is_some() {
+                    let mo = case.n_ports - 1;
+                    // the parent is heard twice first, so that it certainly stays qualified over the
+                    // BMCA run below
+                    for _ in 0..2 {
+                        let use_q = parent == Some(1);
+                        let (body, flags) = if use_q { rand_parent_body(&mut rng, clock_id(0x08).0, 50) } else { rand_parent_body(&mut rng, clock_id(0x10).0, 100) };
+                        let r = if use_q { &mut q_remote } else { &mut p_remote };
+                        if deliver(&mut node, r, body, flags).is_none() {
+                            return;
+                        }
+                    }
+                    for _ in 0..2 {
+                        let (zb, zf) = rand_parent_body(&mut rng, clock_id(0x04).0, 10);
+                        z_remote.body = zb;
+                        z_remote.flags = zf;
+                        let m = z_remote.next_announce();
+                        call!(mo, Call::GeneralRx(m.encode()));
+                    }
+                    bmca!();
+                    rep.ev("better_master_on_master_only_port");
+                    let use_q = parent == Some(1);
+                    let (body, flags) = if use_q { rand_parent_body(&mut rng, clock_id(0x08).0, 50) } else { rand_parent_body(&mut rng, clock_id(0x10).0, 100) };
+                    let r = if use_q { &mut q_remote } else { &mut p_remote };
+                    let Some(m) = deliver(&mut node, r, body, flags) else { return };
+                    let mut v = view_of_announce(&m).unwrap();
+                    v.steps += 1;
+                    expected = v;
+                    if !check_all(&mut node, rep, &expected, phase_label, &format!("step {step}: a better master announces on the masterOnly port, then the parent announces new contents")) {
+                        return;
+                    }
+                }
+            }
             _ => {
                 bmca!();
                 if parent.is_some() && node.port_state(0) != PortState::Slave {
@@ -359,7 +403,7 @@ pub fn run(rep: &mut Report, tier: &str, seed: u64, shard: (u32, u32), replay: O
     let mut i = 0;
     while budget.left(i) {
         i += 1;
-        let case = Case { n_ports: rng.gen_range(2..=3), seed: rng.gen(), path_trace: rng.gen_bool(0.3), steps: rng.gen_range(3..14) };
+        let case = Case { n_ports: rng.gen_range(2..=3), seed: rng.gen(), path_trace: rng.gen_bool(0.3), steps: rng.gen_range(3..14), master_only_last: rng.gen_bool(0.3) };
         if i <= 2 {
             rep.sample(serde_json::to_value(&case).unwrap());
         }
